@@ -17,9 +17,9 @@ CONFIGS = {
     "open": (None, {}),
     "srvpw": ("srvpw", {}),
     "users": (None, {"cfgu": (None, None), "cfgp": ("userpw", None), "cfgm": (None, "*!*@127.0.0.1"),
-                     "cfgx": (None, "*!*@10.*"), "cfgpm": ("userpw", "*!~cfgpm@127.*")}),
+                     "cfgx": (None, "*!*@10.*"), "cfgpm": ("userpw", "*!~cfgpm@127.*"), "cfgq": ("otherpw", None)}),
     "srvpw+users": ("srvpw", {"cfgu": (None, None), "cfgp": ("userpw", None), "cfgx": ("userpw", "*!*@10.*"),
-                              "cfgm": (None, "gate*!*@*")}),
+                              "cfgm": (None, "gate*!*@*"), "cfgq": ("otherpw", None)}),
     # "exactly that password": a long one, told apart from others by its last characters only
     "longpw": ("s" * 64 + "-and-a-tail-that-counts", {}),
 }
@@ -391,6 +391,21 @@ def core_sequences(cfgname):
         seqs.append(pw + ["NICK taken", ulast, "NICK gate2"])
         seqs.append(pw + [ulast, "NICK taken", "NICK taken", "NICK gate2"])
         seqs.append(pw + ["CAP LS 302", "NICK gate1", "@rival", ulast, "CAP END", "NICK gate2"])
+    # ... and the retry names another user: a password that was right for the first USER (checked, then refused with
+    # the late 433) is not thereby right for the second one
+    if users:
+        names = [("plain", "P"), ("cfgp", "C"), ("cfgq", "C"), ("cfgu", "C"), ("cfgm", "C")]
+        for pw in [p_ for p_ in (spw, "userpw", "otherpw") if p_] + [None]:
+            for u1, r1 in names:
+                for u2, r2 in names:
+                    if u1 == u2:
+                        continue
+                    head = (["PASS " + pw] if pw else [])
+                    seqs.append(head + ["NICK gate1", "@rival", "USER %s 0 * :%s" % (u1, r1), "USER %s 0 * :%s" % (u2, r2),
+                                        "NICK gate2"])
+        seqs.append(["PASS userpw", "NICK gate1", "@rival", "USER cfgp 0 * :C", "NICK gate2", "USER cfgq 0 * :C"])
+        seqs.append(["PASS userpw", "NICK gate1", "@rival", "USER cfgp 0 * :C", "PASS otherpw", "USER cfgq 0 * :C", "NICK gate2"])
+        seqs.append(["PASS userpw", "NICK gate1", "@rival", "USER cfgp 0 * :C", "PASS wrong", "NICK gate2"])
     return seqs
 
 
